@@ -68,6 +68,12 @@ def run(facts, R):
     ok = len(none_rows) == 1 and none_rows[0][0] == ["Vec::is_empty(arg1.body) is True"]
     R.check(ok, "read-path-pure", db.path, "empty body -> None before any format test", "decode_body None rows: %s" % none_rows, db.span, "Ok(None) iff body.is_empty()")
     for g, v in rows:
+        if v.startswith("Result::Ok{") and v != "Result::Ok{0: Option::None{}}" and not v.startswith("Result::Ok{0: Option::Some"):
+            # the Option is whatever a decoder produced (serde maps a JSON `null` to None): a non-empty body can then come back
+            # as "no body", and a write of null / a call with a null argument is handled as a read
+            R.bad("read-path-pure", db.path, "a non-empty body decodes to Some(value)",
+                  "decode_body returns %s for a non-empty body: the decoder decides whether there is a body, so a body it maps to None (JSON null) "
+                  "turns a write or a call into a read" % v[:100], db.span)
         if v.startswith("Result::Ok{0: Option::Some"):
             R.check(any(x == "Vec::is_empty(arg1.body) is False" for x in g), "read-path-pure", db.path, "Some only for a non-empty body", "decode_body returns %s under %s" % (v[:60], g), db.span)
 
